@@ -166,7 +166,10 @@ func (v *view) buildGov(st simcore.Step, sender int) []sdk.Msg {
 				paramproposal.NewParamChange("poolmanager", "DefaultTakerFee", fmt.Sprintf("%q", fee+"000000000000000")),
 			})))
 		case 6:
-			msgs = append(msgs, &banktypes.MsgSend{FromAddress: gov, ToAddress: me, Amount: sdk.NewCoins(sdk.NewCoin("uosmo", osmomath.NewInt(1)))})
+			// (an amount the governance account can never cover: the account also holds every proposal's deposit, and
+			// the SDK's gov InitGenesis insists that its balance equals the sum of the deposits - a proposal that
+			// really spends from it makes the state un-importable, which is SDK behaviour, not this repository's)
+			msgs = append(msgs, &banktypes.MsgSend{FromAddress: gov, ToAddress: me, Amount: sdk.NewCoins(sdk.NewCoin("uosmo", osmomath.NewInt(1_000_000_000_000_000_000)))})
 			title = "p-fails"
 		default:
 			msgs = append(msgs, legacyContent(govv1beta1.NewTextProposal("t", "t")))
